@@ -182,6 +182,15 @@ def standin_malformed(tier, seed):
             r = list(rows)
             r[pos] = (r[pos][0], bad_age, r[pos][2], r[pos][3])
             expect_refused(pd.DataFrame(r, columns=["ID", "TIME", "A", "B"]), f"{what} at row {pos}")
+        # the same missing age in pandas' nullable dtypes (pd.NA in a Float64 / Int64 column, e.g. after convert_dtypes())
+        for dtype in ("Float64", "Int64"):
+            d_ = pd.DataFrame(list(rows), columns=["ID", "TIME", "A", "B"])
+            if dtype == "Int64":
+                d_["TIME"] = d_["TIME"].round()
+                d_.loc[3, "TIME"] = 63.0
+            d_["TIME"] = d_["TIME"].astype(dtype)
+            d_.loc[pos, "TIME"] = pd.NA
+            expect_refused(d_, f"missing age (pd.NA, dtype {dtype}) at row {pos}")
         for bad_val, what in ((float("inf"), "infinite value"), (-float("inf"), "-inf value"), ("x", "non-numeric value")):
             r = [list(x) for x in rows]
             r[pos][2] = bad_val
